@@ -66,12 +66,17 @@ class _ListHandler(logging.Handler):
     def __init__(self):
         super().__init__()
         self.records = []
+        self.exc_classes = []
+        self.excs = []
 
     def emit(self, record):
         try:
             self.records.append((record.levelname, record.getMessage()))
         except Exception:
             self.records.append((record.levelname, '<unformattable>'))
+        if isinstance(record.msg, BaseException):
+            self.exc_classes.append(type(record.msg).__name__)
+            self.excs.append(record.msg)
 
 
 def run_cli(argv, cwd=None, stdin=None, tz=None):
@@ -115,7 +120,8 @@ def run_cli(argv, cwd=None, stdin=None, tz=None):
             os.environ['GNUPGHOME'] = old_gh
         root.handlers = old_handlers
         root.setLevel(old_level)
-    res = {'log': h.records, 'out': out.getvalue(), 'err': err.getvalue()}
+    res = {'log': h.records, 'out': out.getvalue(), 'err': err.getvalue(),
+           'logged_exc': h.exc_classes, 'logged_exc_objs': h.excs}
     if r[0] == 'ok':
         res['kind'] = 'ok'
         res['rc'] = r[1]
@@ -169,3 +175,17 @@ def internal_violations(results, allow=()):
         if r and r[0] == 'INTERNAL':
             out.append(viol('I-internal', 'internal error escaped: %s: %s' % (r[1], r[2]), sig=r[1]))
     return out
+
+
+def cli_as_call(c):
+    """Map a run_cli() result onto the call() result shape: exit 0 -> ok True;
+    exit 1 with a logged GematoException -> ('GE', class, exc)."""
+    if c['kind'] == 'ok':
+        if c['rc'] == 0:
+            return ('ok', True)
+        if c['logged_exc']:
+            return ('GE', c['logged_exc'][-1], c['logged_exc_objs'][-1])
+        return ('GE', 'cli-exit-%s' % c['rc'], None)
+    if c['kind'] == 'EXIT':
+        return ('GE', 'cli-exit-%s' % c['rc'], None)
+    return (c['kind'], c['name'], c.get('exc'))
